@@ -341,6 +341,7 @@ impl TableLookup {
         ensures r.target_id == target_id, r.will_announce == will_announce, r.id_generator.action_id == id_generator.action_id, !r.in_endgame,
             r.announce_tokens@.len() == 0, // @C03.new_search_knows_no_token
             outstanding_ids_ok(r), // @C03.outstanding_ids_belong_to_this_search
+            !r.recv_values, // @C02.the_end_game_sweep_is_never_switched_off
             // C04: a new search is either finished at once (no good node could be asked) or kept going by pending timeouts
             wake_ok(r, *final(timer), None), // @C04.every_outstanding_query_has_a_pending_timeout
             nothing_sent(old(tr).ev, final(tr).ev) ==> r.active_lookups@.len() == 0, // @C04.a_search_that_can_ask_nobody_is_finished_at_once
@@ -437,6 +438,7 @@ impl TableLookup {
         requires old(timer).wf()
         ensures only_requests_and_yields(old(tr).ev, final(tr).ev), no_yield(old(tr).ev, final(tr).ev), // @C03.request_round_only_queries
             outstanding_ids_ok(*old(self)) ==> outstanding_ids_ok(*final(self)), // @C03.outstanding_ids_belong_to_this_search
+            final(self).recv_values == old(self).recv_values, // @C02.the_end_game_sweep_is_never_switched_off
             // C04: every query registered by the round owns a pending 1.5 s timeout; older queries keep theirs; nobody else's timer entry is touched
             wake_ok(*old(self), *old(timer), None) ==> wake_ok(*final(self), *final(timer), None), // @C04.every_outstanding_query_has_a_pending_timeout
             new_timeouts_1500ms(*old(timer), *final(timer)), // @C04.query_timeout_is_1500_ms
@@ -462,6 +464,7 @@ impl TableLookup {
         loop
             invariant only_requests_and_yields(ev0, tr.ev), no_yield(ev0, tr.ev), // @C03.request_round_only_queries
                 outstanding_ids_ok(*old(self)) ==> outstanding_ids_ok(*self), // @C03.outstanding_ids_belong_to_this_search
+                self.recv_values == old(self).recv_values, // @C02.the_end_game_sweep_is_never_switched_off
                 timer.wf(), timer.next_id >= old(timer).next_id,
                 wake_ok(*old(self), *old(timer), None) ==> wake_ok(*self, *timer, None), // @C04.every_outstanding_query_has_a_pending_timeout
                 new_timeouts_1500ms(*old(timer), *timer), // @C04.query_timeout_is_1500_ms
@@ -563,6 +566,7 @@ impl TableLookup {
         requires old(timer).wf()
         ensures only_requests_and_yields(old(tr).ev, final(tr).ev), no_yield(old(tr).ev, final(tr).ev), // @C03.endgame_round_only_queries
             outstanding_ids_ok(*old(self)) ==> outstanding_ids_ok(*final(self)), // @C03.outstanding_ids_belong_to_this_search
+            final(self).recv_values == old(self).recv_values, // @C02.the_end_game_sweep_is_never_switched_off
             // C04: entering the end-game schedules the 1.5 s end-game timeout of this search that will finish it
             final(self).in_endgame && wake_ok(*final(self), *final(timer), None), // @C04.end_game_has_a_pending_timeout
             new_timeouts_1500ms(*old(timer), *final(timer)), // @C04.end_game_lasts_1500_ms
@@ -594,6 +598,7 @@ impl TableLookup {
             loop
                 invariant only_requests_and_yields(ev0, tr.ev), no_yield(ev0, tr.ev), // @C03.endgame_round_only_queries
                     outstanding_ids_ok(*old(self)) ==> outstanding_ids_ok(*self), // @C03.outstanding_ids_belong_to_this_search
+                self.recv_values == old(self).recv_values, // @C02.the_end_game_sweep_is_never_switched_off
                     self.in_endgame, *timer == tm1,
                     no_new_refresh(*old(timer), *timer),
                     self.announce_tokens == old(self).announce_tokens, self.will_announce == old(self).will_announce, // @C03.endgame_round_keeps_tokens
@@ -670,6 +675,7 @@ impl TableLookup {
             old(self).active_lookups@.contains_key(*trans_id) ==> final(self).announce_tokens@ == (if msg.token is Some { old(self).announce_tokens@.insert(node.handle, msg.token->0) } else { old(self).announce_tokens@ }), // @C03.latest_token_recorded_under_responder @C01.latest_token_recorded_under_responder @C02.latest_token_recorded_under_responder
             no_replies(old(tr).ev, final(tr).ev), only_requests_and_yields(old(tr).ev, final(tr).ev), // @C05.responses_never_answered
             outstanding_ids_ok(*old(self)) ==> outstanding_ids_ok(*final(self)), // @C03.outstanding_ids_belong_to_this_search
+            final(self).recv_values == old(self).recv_values, // @C02.the_end_game_sweep_is_never_switched_off
             // C04: the search reports Completed only when no query is outstanding and no end-game is running; as long as it goes on it cannot get stuck
             res == status_of(*final(self)), // @C04.completed_only_without_outstanding_query_and_outside_the_end_game
             old(self).active_lookups@.contains_key(*trans_id) && !old(self).in_endgame ==> res == ActionStatus::Ongoing, // @C04.a_search_ends_only_through_its_end_game
@@ -857,6 +863,7 @@ impl TableLookup {
             !old(self).active_lookups@.contains_key(*trans_id) ==> final(tr).ev == old(tr).ev && *final(timer) == *old(timer) && final(self).active_lookups@ == old(self).active_lookups@, // @C03.unknown_timeout_changes_nothing
             only_requests_and_yields(old(tr).ev, final(tr).ev), no_yield(old(tr).ev, final(tr).ev), // @C03.timeouts_yield_nothing
             outstanding_ids_ok(*old(self)) ==> outstanding_ids_ok(*final(self)), // @C03.outstanding_ids_belong_to_this_search
+            final(self).recv_values == old(self).recv_values, // @C02.the_end_game_sweep_is_never_switched_off
             // C04: `trans_id` is the query whose timeout has just fired (the fired entry is gone from the timer)
             res == status_of(*final(self)), // @C04.completed_only_without_outstanding_query_and_outside_the_end_game
             old(self).active_lookups@.contains_key(*trans_id) && !old(self).in_endgame ==> res == ActionStatus::Ongoing, // @C04.a_search_ends_only_through_its_end_game
